@@ -244,3 +244,80 @@ func ruleR103(only func(pkg *packages.Package) bool) func(c *Ctx) {
 		c.Note("functions-scanned", token.NoPos, "%d function declarations scanned for fields that one function increments and decrements", nFuncs)
 	}
 }
+
+// ---------------------------------------------------------------------------
+// R10.4 the producer of a lazy list uses the stack of its consumer only
+//
+// A stage method (map, iir, compact, ...) runs when the list is *built*; the
+// producer it hands to NewListFromIterable runs later, every time somebody
+// iterates the list, and gets the stack of that somebody as its parameter. The
+// stack of the building call is a view on slots that have long been given
+// back: a producer that still pushes arguments there overwrites whatever
+// lives in those slots now (a let bound after the list), and if the list was
+// folded into a constant, all concurrent evaluations push onto the one stack
+// that existed at Generate time.
+
+func ruleR104(c *Ctx) {
+	la := c.listAnchors()
+	a := c.genAnchors()
+	if len(la.missing) > 0 || len(a.missing) > 0 {
+		c.Undecided("value.List / funcGen.Stack", token.NoPos, "anchors not found")
+		return
+	}
+	isStack := func(t types.Type) bool {
+		nm := namedOf(t)
+		return nm != nil && nm.Obj().Pkg() != nil && nm.Obj().Pkg().Path() == modPath+"/funcGen" && nm.Obj().Name() == "Stack"
+	}
+	n := 0
+	for _, pkg := range c.RepoPkgs {
+		info := pkg.TypesInfo
+		for _, f := range pkg.Syntax {
+			ast.Inspect(f, func(x ast.Node) bool {
+				call, ok := x.(*ast.CallExpr)
+				if !ok || !(isCallTo(info, call, la.newFromIterable) || isCallTo(info, call, la.newFromSizedIterable)) || len(call.Args) == 0 {
+					return true
+				}
+				lit, ok := ast.Unparen(call.Args[0]).(*ast.FuncLit)
+				if !ok {
+					return true
+				}
+				fn := c.EnclosingFunc(call)
+				if fn == nil {
+					return true
+				}
+				n++
+				key := fmt.Sprintf("%s#producer-stack[%d]", c.FuncName(fn)+litSuffix(c, fn), ordinalIn(fn, call, func(y ast.Node) bool {
+					cc, ok := y.(*ast.CallExpr)
+					return ok && (isCallTo(info, cc, la.newFromIterable) || isCallTo(info, cc, la.newFromSizedIterable))
+				}))
+				var bad *ast.Ident
+				ast.Inspect(lit.Body, func(y ast.Node) bool {
+					id, ok := y.(*ast.Ident)
+					if !ok || bad != nil {
+						return true
+					}
+					v, ok := info.Uses[id].(*types.Var)
+					if !ok || v.IsField() || !isStack(v.Type()) {
+						return true
+					}
+					// declared outside the producer literal: captured from the building call
+					if v.Pos() < lit.Pos() || v.Pos() > lit.End() {
+						if v.Parent() != nil && v.Parent() != v.Pkg().Scope() {
+							bad = id
+						}
+					}
+					return true
+				})
+				if bad == nil {
+					c.OK(key, call.Pos(), "the producer uses no value stack from outside: closures are called on the stack of whoever iterates the list")
+				} else {
+					c.Violation(key, bad.Pos(), "the producer of a lazy list uses the value stack %s of the call that built the list: when the list is iterated later, that stack's slots belong to something else (a let bound since then is overwritten without any error), and a list folded into a constant makes all concurrent evaluations push their arguments onto the one stack of Generate time", bad.Name)
+				}
+				return true
+			})
+		}
+	}
+	if n < 15 {
+		c.Undecided("value#lazy-list-constructions", token.NoPos, "only %d constructions of lazy lists from a literal found", n)
+	}
+}
